@@ -1,33 +1,18 @@
-// Package vsched: cooperative controlled scheduler. PROTOTYPE.
+// Package vsched: cooperative controlled scheduler. It is compiled into the murex module as the virtual
+// package verif/shim/vsched through a go build overlay; the rewritten murex sources
+// call it at every synchronisation operation. Exactly one controlled thread runs at a time; at every
+// scheduling point the Choose callback of the active explorer decides who runs next.
+//
+// No Go maps, channels (race builds) or mutexes are used here: in race-detector builds this package is
+// compiled without instrumentation and its hand-offs must not create happens-before edges.
 package vsched
 
 import (
 	"fmt"
 	"runtime"
-	"syscall"
-	"unsafe"
 )
 
-// gate: futex-based hand-off with no Go-level synchronisation (invisible to the race detector
-// when this package is compiled without instrumentation).
-type gate struct{ w uint32 }
-
-func (g *gate) wait() {
-	for {
-		if g.w != 0 {
-			g.w = 0
-			return
-		}
-		syscall.Syscall6(syscall.SYS_FUTEX, uintptr(unsafe.Pointer(&g.w)), 0 /*FUTEX_WAIT*/, 0, 0, 0, 0)
-	}
-}
-
-func (g *gate) open() {
-	g.w = 1
-	syscall.Syscall6(syscall.SYS_FUTEX, uintptr(unsafe.Pointer(&g.w)), 1 /*FUTEX_WAKE*/, 1, 0, 0, 0)
-}
-
-type OpKind int
+type OpKind uint8
 
 const (
 	OpStart OpKind = iota
@@ -41,87 +26,98 @@ const (
 	OpRecv
 	OpYield
 	OpGo
-	OpContinue
+	OpUser
 	OpExit
 )
 
-var kindNames = [...]string{"start", "lock", "unlock", "rlock", "runlock", "wgwait", "wgdone", "send", "recv", "yield", "go", "cont", "exit"}
+var kindNames = [...]string{"start", "lock", "unlock", "rlock", "runlock", "wgwait", "wgdone", "send", "recv", "yield", "go", "user", "exit"}
 
 func (k OpKind) String() string { return kindNames[k] }
 
-// Op is a pending operation of a parked thread.
+// Op is the operation a parked thread wants to perform next.
 type Op struct {
 	Kind    OpKind
-	Obj     any         // mutex / waitgroup / channel identity
-	Enabled func() bool // nil = always
-	Site    uint64
+	Obj     any         // mutex / waitgroup / channel identity (for the enabledness predicate)
+	Enabled func() bool // nil = always enabled
+	Site    uint64      // hash of the call-site PC chain
+}
+
+type siteSeen struct {
+	site    uint64
+	foreign int64
 }
 
 type Thread struct {
-	ID       int
-	goid     int64
-	gate     gate
-	pending  Op
-	finished bool
-	yielding bool
-	blockedBy map[int]bool // fair scheduling: threads that must run before this one
-	own  int64            // steps taken by this thread
-	seen map[uint64]int64 // site -> foreign step count at last visit
+	ID        int
+	g         uintptr
+	gate      gate
+	pending   Op
+	finished  bool
+	yielding  bool
+	blockedBy []bool // fair scheduling: ids that must be scheduled (or become disabled) before this one
+	own       int64  // scheduling decisions that chose this thread
+	seen      []siteSeen
+	Name      string
 }
 
+// Point is one scheduling decision.
 type Point struct {
-	Thread  int
+	Thread  int // thread that arrived at the point (token holder)
 	Kind    OpKind
 	Site    uint64
-	Enabled []int
-	Chosen  int
+	Enabled []int // canonical order: the arriving thread first if it is still enabled, then ascending ids
+	Chosen  int   // thread id chosen
+	Choice  int   // index into Enabled
+	// RunningEnabled: Enabled[0] is the arriving thread, i.e. choosing another index is a preemption.
+	RunningEnabled bool
 }
 
-type Explorer struct {
+type Config struct {
+	Choose   func(p *Point) int // returns an index into p.Enabled; nil = always 0
+	MaxSteps int64              // horizon; 0 = 1e6
+	Monitor  func()             // called at every scheduling point with every controlled thread parked
+}
+
+type Execution struct {
+	cfg      Config
 	threads  []*Thread
 	cur      *Thread
 	steps    int64
 	Trace    []Point
+	Steps    int64
 	done     gate
-	finishedRun bool
-	Deadlock bool
-	Horizon  bool
-	Choose   func(p *Point) int // returns index into p.Enabled
+	finished bool
+	Deadlock bool // no enabled thread, some unfinished
+	Horizon  bool // MaxSteps reached (harness error, not a verdict)
+	Diverged string
 	Panics   []string
+	Blocked  []string // description of the threads that were blocked at a deadlock
+	NThreads int
+	Yields   int64
 }
 
-var active *Explorer
+var active *Execution
 
-func Active() *Explorer { return active }
+func Active() bool { return active != nil }
 
-func goid() int64 {
-	var buf [64]byte
-	n := runtime.Stack(buf[:], false)
-	// "goroutine 123 ["
-	var id int64
-	for i := 10; i < n && buf[i] >= '0' && buf[i] <= '9'; i++ {
-		id = id*10 + int64(buf[i]-'0')
-	}
-	return id
-}
-
-// Self returns the controlled thread of the calling goroutine or nil. Only the token holder can
-// be a controlled running thread, so identity = "am I e.cur".
-func Self() (*Explorer, *Thread) {
+// Self returns the controlled thread of the calling goroutine, or nil when the caller is not a
+// controlled thread (no explorer active, or an uncontrolled goroutine). Only the token holder can be a
+// running controlled thread, so identity is "am I the goroutine of e.cur".
+func Self() (*Execution, *Thread) {
 	e := active
 	if e == nil {
 		return nil, nil
 	}
 	c := e.cur
-	if c == nil || c.goid != goid() {
+	if c == nil || c.g != getg() {
 		return nil, nil
 	}
 	return e, c
 }
 
-func site() uint64 {
-	var pcs [6]uintptr
-	n := runtime.Callers(4, pcs[:])
+func site(skip int) uint64 {
+	var pcs [8]uintptr
+	n := runtime.Callers(skip, pcs[:])
 	h := uint64(1469598103934665603)
 	for _, pc := range pcs[:n] {
 		h = (h ^ uint64(pc)) * 1099511628211
@@ -129,45 +125,65 @@ func site() uint64 {
 	return h
 }
 
-// Run executes main as thread 0 under the explorer and returns when all threads finished or deadlock.
-func Run(choose func(p *Point) int, main func()) *Explorer {
-	e := &Explorer{Choose: choose}
+// Run executes main as thread 0 under the scheduler and returns when every controlled thread has
+// finished, or at a deadlock, or at the horizon.
+func Run(cfg Config, main func()) *Execution {
 	if active != nil {
-		panic("explorer already active")
+		panic("vsched: an execution is already active")
 	}
-	active = e
+	if cfg.MaxSteps == 0 {
+		cfg.MaxSteps = 1000000
+	}
+	e := &Execution{cfg: cfg}
+	e.done.init()
+	resetHooks()
 	t := e.newThread()
 	e.cur = t
+	active = e
 	go e.body(t, main)
 	t.gate.open()
 	e.done.wait()
 	active = nil
+	e.Steps = e.steps
+	e.NThreads = len(e.threads)
 	return e
 }
 
-func (e *Explorer) newThread() *Thread {
+// reset hooks: other shim packages (vchan) keep per-execution tables.
+var resetFns []func()
+
+func OnReset(f func()) { resetFns = append(resetFns, f) }
+func resetHooks() {
+	for _, f := range resetFns {
+		f()
+	}
+}
+
+func (e *Execution) newThread() *Thread {
 	t := &Thread{ID: len(e.threads)}
+	t.gate.init()
 	t.pending = Op{Kind: OpStart}
 	e.threads = append(e.threads, t)
 	return t
 }
 
-func (e *Explorer) body(t *Thread, fn func()) {
+func (e *Execution) body(t *Thread, fn func()) {
 	t.gate.wait()
-	t.goid = goid()
+	t.g = getg()
 	defer func() {
 		if r := recover(); r != nil {
-			buf := make([]byte, 4096)
+			buf := make([]byte, 8192)
 			buf = buf[:runtime.Stack(buf, false)]
 			e.Panics = append(e.Panics, fmt.Sprintf("thread %d: %v\n%s", t.ID, r, buf))
 		}
 		t.finished = true
+		t.pending = Op{Kind: OpExit}
 		e.schedule(t, true)
 	}()
 	fn()
 }
 
-// Go spawns a controlled thread (or a plain goroutine when inactive).
+// Go spawns fn as a new controlled thread (a plain goroutine when the caller is not controlled).
 func Go(fn func()) {
 	e, t := Self()
 	if e == nil {
@@ -176,23 +192,66 @@ func Go(fn func()) {
 	}
 	n := e.newThread()
 	go e.body(n, fn)
-	e.point(t, Op{Kind: OpGo})
+	e.point(t, Op{Kind: OpGo}, 3)
 }
 
-// PointOp is called by shims: the calling thread wants to perform op.
-func PointOp(e *Explorer, t *Thread, op Op) { e.point(t, op) }
+// GoNamed is Go with a label (drivers).
+func GoNamed(name string, fn func()) {
+	e, t := Self()
+	if e == nil {
+		go fn()
+		return
+	}
+	n := e.newThread()
+	n.Name = name
+	go e.body(n, fn)
+	e.point(t, Op{Kind: OpGo}, 3)
+}
 
-func (e *Explorer) point(t *Thread, op Op) {
-	op.Site = site()
-	// spin detection: same site again and nobody else stepped since
+// PointOp is called by the shims: the calling controlled thread wants to perform op.
+func PointOp(e *Execution, t *Thread, op Op) { e.point(t, op, 4) }
+
+// UserPoint is a scheduling point placed by a driver (start of an operation).
+func UserPoint() {
+	if e, t := Self(); e != nil {
+		e.point(t, Op{Kind: OpUser}, 3)
+	}
+}
+
+// Yield marks the caller as making no progress until somebody else moves (used by Sleep).
+func Yield() {
+	if e, t := Self(); e != nil {
+		e.point(t, Op{Kind: OpYield}, 4)
+	}
+}
+
+// ThreadID of the calling controlled thread, -1 if none.
+func ThreadID() int {
+	if _, t := Self(); t != nil {
+		return t.ID
+	}
+	return -1
+}
+
+func (e *Execution) point(t *Thread, op Op, skip int) {
+	op.Site = site(skip)
+	// spin detection: back at the same site while nobody else has taken a step since the last visit =
+	// a complete loop iteration on unchanged state.
 	foreign := e.steps - t.own
-	if t.seen == nil {
-		t.seen = map[uint64]int64{}
+	found := false
+	for i := range t.seen {
+		if t.seen[i].site == op.Site {
+			if t.seen[i].foreign == foreign && op.Kind != OpYield {
+				t.yielding = true
+			}
+			t.seen[i].foreign = foreign
+			found = true
+			break
+		}
 	}
-	if v, ok := t.seen[op.Site]; ok && v == foreign && op.Kind != OpYield {
-		t.yielding = true // completed a loop iteration with nobody else stepping
+	if !found {
+		t.seen = append(t.seen, siteSeen{op.Site, foreign})
 	}
-	t.seen[op.Site] = foreign
 	if op.Kind == OpYield {
 		t.yielding = true
 	}
@@ -210,33 +269,46 @@ func (th *Thread) enabled() bool {
 	return true
 }
 
-// schedule: t holds the token; pick the next thread.
-func (e *Explorer) schedule(t *Thread, exiting bool) {
-	var en, enYield []int
-	isEn := map[int]bool{}
+func (e *Execution) describe(th *Thread) string {
+	return fmt.Sprintf("t%d(%s) blocked at %v on %T", th.ID, th.Name, th.pending.Kind, th.pending.Obj)
+}
+
+// schedule: t holds the token and has arrived at a point (or is exiting); pick who runs next.
+func (e *Execution) schedule(t *Thread, exiting bool) {
+	if e.cfg.Monitor != nil && !e.finished {
+		e.cfg.Monitor()
+	}
+	n := len(e.threads)
+	isEn := make([]bool, n)
+	anyEn := false
 	for _, th := range e.threads {
 		if th.enabled() {
 			isEn[th.ID] = true
+			anyEn = true
 		}
 	}
-	// a thread that just yielded must wait for every other currently enabled thread
+	// fair yield (Musuvathi & Qadeer 2008): a thread that just yielded waits for every other thread that
+	// is enabled right now to be scheduled once (or to become disabled).
 	if t.yielding && !t.finished {
-		t.blockedBy = map[int]bool{}
-		for id := range isEn {
-			if id != t.ID {
+		e.Yields++
+		t.blockedBy = make([]bool, n)
+		for id := 0; id < n; id++ {
+			if isEn[id] && id != t.ID {
 				t.blockedBy[id] = true
 			}
 		}
 		t.yielding = false
 	}
+	var en, enYield []int
 	for _, th := range e.threads {
 		if !isEn[th.ID] {
 			continue
 		}
 		blocked := false
-		for id := range th.blockedBy {
-			if isEn[id] {
+		for id, b := range th.blockedBy {
+			if b && id < n && isEn[id] {
 				blocked = true
+				break
 			}
 		}
 		if blocked {
@@ -246,54 +318,71 @@ func (e *Explorer) schedule(t *Thread, exiting bool) {
 		}
 	}
 	if len(en) == 0 && len(enYield) > 0 {
-		// priority cycle among yielders only: release them all
+		// only yielders remain and they wait for each other: release them all
 		en = enYield
 		for _, id := range en {
 			e.threads[id].blockedBy = nil
 		}
 	}
-	if len(en) == 0 {
-		unfinished := 0
+	if !anyEn || len(en) == 0 {
 		for _, th := range e.threads {
 			if !th.finished {
-				unfinished++
+				e.Deadlock = true
+				e.Blocked = append(e.Blocked, e.describe(th))
 			}
-		}
-		if unfinished > 0 {
-			e.Deadlock = true
 		}
 		e.finish()
 		if !exiting {
 			var forever gate
-			forever.wait() // park forever (leaked)
+			forever.wait() // park for good (leaked goroutine; only happens on deadlocked executions)
 		}
 		return
 	}
-	// canonical order: current thread first if enabled
+	// canonical order: the arriving thread first when it is still enabled
+	running := false
 	for i, id := range en {
-		if id == t.ID && i != 0 {
+		if id == t.ID {
 			copy(en[1:i+1], en[:i])
 			en[0] = id
+			running = true
+			break
 		}
 	}
-	p := Point{Thread: t.ID, Kind: t.pending.Kind, Site: t.pending.Site, Enabled: en}
+	p := Point{Thread: t.ID, Kind: t.pending.Kind, Site: t.pending.Site, Enabled: en, RunningEnabled: running}
 	idx := 0
-	if e.Choose != nil {
-		idx = e.Choose(&p)
+	if e.cfg.Choose != nil {
+		idx = e.cfg.Choose(&p)
+		if idx < 0 || idx >= len(en) {
+			e.Diverged = fmt.Sprintf("choice %d out of range at step %d (enabled %v)", idx, e.steps, en)
+			e.Deadlock = false
+			e.finish()
+			if !exiting {
+				var forever gate
+				forever.wait()
+			}
+			return
+		}
 	}
+	p.Choice = idx
 	p.Chosen = en[idx]
-	e.Trace = append(e.Trace, p)
+	if true {
+		e.Trace = append(e.Trace, p)
+	}
 	e.steps++
-	if e.steps > 20000 {
+	if e.steps > e.cfg.MaxSteps {
 		e.Horizon = true
-		e.Deadlock = true
 		e.finish()
-		var forever gate
-		forever.wait()
+		if !exiting {
+			var forever gate
+			forever.wait()
+		}
+		return
 	}
 	next := e.threads[p.Chosen]
 	for _, th := range e.threads {
-		delete(th.blockedBy, next.ID)
+		if next.ID < len(th.blockedBy) {
+			th.blockedBy[next.ID] = false
+		}
 	}
 	next.own++
 	if next == t {
@@ -307,9 +396,9 @@ func (e *Explorer) schedule(t *Thread, exiting bool) {
 	t.gate.wait()
 }
 
-func (e *Explorer) finish() {
-	if !e.finishedRun {
-		e.finishedRun = true
+func (e *Execution) finish() {
+	if !e.finished {
+		e.finished = true
 		e.cur = nil
 		e.done.open()
 	}
